@@ -384,3 +384,19 @@ func verifCloneDiff(d Diff) Diff {
 	}
 	return out
 }
+
+// verifPointerDocs: documents whose keys need (or seem to need) JSON Pointer escaping, holding
+// scalars and short lists, one and two levels deep.
+func verifPointerDocs() []JsonNode {
+	keys := []string{"a/b", "~0", "~", "x~1y", "c~d", "~1", "m~n/o", ""}
+	n := func(f float64) JsonNode { return jsonNumber(f) }
+	vals := []JsonNode{n(1), n(2), jsonArray{}, jsonArray{n(1)}, jsonArray{n(1), n(2)}, jsonArray{n(2)}, jsonObject{}}
+	var out []JsonNode
+	for _, k := range keys {
+		for _, v := range vals {
+			out = append(out, jsonObject{k: verifCloneNode(v)})
+		}
+		out = append(out, jsonObject{"a/b": jsonObject{k: n(1)}}, jsonObject{"a/b": jsonObject{k: n(2)}}, jsonObject{k: n(1), "z": n(1)})
+	}
+	return out
+}
